@@ -463,4 +463,359 @@ theorem Roots.mapE_spec {f : Int → Except Err Int} {P : Int → Int → Prop} 
     rfl
 
 
+/-- roots the loader can map: a container whose members are non-constant nodes of the file
+(`roots = None` is F2, a constant root is F11) -/
+structure RootsOK (f : PickleFile) : Prop where
+  some : f.roots ≠ .none
+  mem : ∀ u ∈ f.roots.values, u.natAbs ≠ 1 ∧ ∃ e ∈ f.succ, e.id = u.natAbs
+
+theorem UOK.empty (succ lm n N) (t : Tbl) : UOK succ lm n N t {} := by
+  intro k r h
+  simp at h
+
+/-- the second half of `load`: with the variables declared and a monotone level map, the
+nodes are rebuilt and the roots denote (over the target's levels) what the file says -/
+theorem loadPickle_core (hF : FoaSpec) (f : PickleFile) (levels : Bool) (lm : List (Nat × Nat))
+    (m m1 : Mgr) (hv : loadVars levels f.vars.length f.vars [] m = (.ok lm, m1))
+    (hI : Inv m1) (hc : m1.ctx = false) (hs : SuccWF f.succ f.vars.length)
+    (hl : LMOK f.succ lm m1.nvars) (hr : RootsOK f) :
+    ∃ roots' m', loadPickle f levels m = (.ok roots', m') ∧ Inv m' ∧ Frame m1 m' ∧
+      Ext m1.tbl m'.tbl ∧
+      RootsRel (fun u r => m'.tbl.Mem r ∧
+        ∀ a, den m'.tbl r a = evalL f.succ lm (f.vars.length + 1) u a) f.roots roots' := by
+  unfold loadPickle
+  rw [hv]
+  dsimp only
+  obtain ⟨umap, m2, e2, I2, F2, X2, U2, _, A2⟩ :=
+    loadAll_spec hF hs hl (fuel := f.vars.length + f.succ.length + 2) (by omega) f.succ {} m1
+      (fun _ h => h) hI hc rfl (UOK.empty _ _ _ _ _)
+  rw [e2]
+  dsimp only
+  obtain ⟨r', h1, h2⟩ := Roots.mapE_spec (f := mapNode umap)
+    (P := fun u r => m2.tbl.Mem r ∧ ∀ a, den m2.tbl r a = evalL f.succ lm (f.vars.length + 1) u a)
+    f.roots hr.some (by
+      intro u hu
+      obtain ⟨h1, e, he, hid⟩ := hr.mem u hu
+      have hc' := A2 e he (by omega)
+      rw [hid, TreeMap.contains_eq_isSome_getElem?] at hc'
+      obtain ⟨v, hv'⟩ := Option.isSome_iff_exists.mp hc'
+      obtain ⟨k1, v0, vm, vf, vl, vd⟩ := U2 _ v hv'
+      refine ⟨if u < 0 then -v else v, by simp [mapNode, hv'], ?_, ?_⟩
+      · by_cases hneg : u < 0
+        · rw [if_pos hneg]; exact mem_neg vm
+        · rw [if_neg hneg]; exact vm
+      · intro a
+        by_cases hneg : u < 0
+        · rw [if_pos hneg, den_neg m2.tbl I2.wf.toWF v a vm, vd a]
+          have hu : u = -(u.natAbs : Int) := by omega
+          have hfind : (PEntry.find f.succ ((u.natAbs : Int)).natAbs).isSome := by simpa using vf
+          conv => rhs; rw [hu]
+          rw [evalL_neg _ _ _ (by simpa using h1) hfind ?_ (by omega)]
+          intro e' he'
+          obtain ⟨v', w', hv2, hw2, _⟩ := hs.node _ e' he' (by simpa using h1)
+          obtain ⟨j, hj, _⟩ := hl.dom _ e' he' (by simpa using h1)
+          exact ⟨v', w', j, hv2, hw2, hj⟩
+        · rw [if_neg hneg, vd a]
+          have hu : (u.natAbs : Int) = u := by omega
+          rw [hu])
+  exact ⟨r', m2, by rw [h1], I2, F2, X2, h2⟩
+
+
+/-! ### the variables: `add_var` in `_load_pickle` -/
+
+theorem addVar_cases {var : String} {lvl : Option Int} {m m' : Mgr} {j : Nat}
+    (h : addVar var lvl m = (.ok j, m')) :
+    (m.tbl.vars[var]? = some j ∧ m' = m ∧ (∀ l, lvl = some l → l = (j : Int))) ∨
+    (m.tbl.vars[var]? = none ∧ m.tbl.l2v[j]? = none ∧ lvl.getD (m.nvars : Int) = (j : Int) ∧
+      m' = { m with tbl := { m.tbl with vars := m.tbl.vars.insert var j, l2v := m.tbl.l2v.insert j var } }) := by
+  unfold addVar at h
+  simp only [bind, M.bind', M.get, pure] at h
+  cases hv : m.tbl.vars[var]? with
+  | some vl =>
+    simp only [hv] at h
+    cases lvl with
+    | none =>
+      simp [M.pure'] at h
+      obtain ⟨h1, h2⟩ := h
+      subst h1 h2
+      exact Or.inl ⟨rfl, rfl, by simp⟩
+    | some l =>
+      by_cases hl : l = (vl : Int)
+      · simp [M.pure', hl] at h
+        obtain ⟨h1, h2⟩ := h
+        subst h1 h2
+        exact Or.inl ⟨rfl, rfl, by intro l' hl'; cases hl'; exact hl⟩
+      · simp [M.throw, hl] at h
+  | none =>
+    simp only [hv] at h
+    by_cases hneg : lvl.getD (m.nvars : Int) < 0
+    · simp [hneg, M.bind', M.throw] at h
+    · simp only [hneg, if_false] at h
+      cases hl : m.tbl.l2v[(lvl.getD (m.nvars : Int)).toNat]? with
+      | some x => simp [hl, M.throw] at h
+      | none =>
+        simp [hl, M.bind', M.set, M.pure'] at h
+        obtain ⟨h1, h2⟩ := h
+        subst h1
+        refine Or.inr ⟨rfl, hl, by omega, h2.symm⟩
+
+/-- `vars` and `_level_to_var` are inverse of each other -/
+def VarsBij (t : Tbl) : Prop := ∀ (v : String) (l : Nat), t.vars[v]? = some l ↔ t.l2v[l]? = some v
+
+/-- `add_var` keeps the manager invariant (part of C14's `addVar_spec`) -/
+def AddVarInv : Prop :=
+  ∀ (m : Mgr) (var : String) (lvl : Option Int) (j : Nat) (m' : Mgr),
+    Inv m → addVar var lvl m = (.ok j, m') → Inv m'
+
+theorem addVar_facts {var : String} {lvl : Option Int} {m m' : Mgr} {j : Nat}
+    (h : addVar var lvl m = (.ok j, m')) (hb : VarsBij m.tbl) :
+    VarsBij m'.tbl ∧ m'.tbl.vars[var]? = some j ∧
+    (∀ (v : String) (l : Nat), m.tbl.vars[v]? = some l → m'.tbl.vars[v]? = some l) ∧ m'.ctx = m.ctx ∧
+    m'.tbl.succ = m.tbl.succ ∧ (∀ i : Nat, lvl = some (i : Int) → j = i) := by
+  rcases addVar_cases h with ⟨h1, h2, h3⟩ | ⟨h1, h2, h3, h4⟩
+  · subst h2
+    exact ⟨hb, h1, fun _ _ h => h, rfl, rfl, fun i hi => by have := h3 _ hi; omega⟩
+  · subst h4
+    refine ⟨?_, ?_, ?_, rfl, rfl, ?_⟩
+    · intro v l
+      show (m.tbl.vars.insert var j)[v]? = some l ↔ (m.tbl.l2v.insert j var)[l]? = some v
+      rw [TreeMap.getElem?_insert, TreeMap.getElem?_insert]
+      by_cases hv : var = v <;> by_cases hl : j = l
+      · subst hv hl; simp
+      · subst hv
+        have : m.tbl.l2v[l]? ≠ some var := by
+          intro h'; rw [← hb] at h'; rw [h1] at h'; cases h'
+        simp [hl, this]
+      · subst hl
+        have : m.tbl.vars[v]? ≠ some j := by
+          intro h'; rw [hb] at h'; rw [h2] at h'; cases h'
+        simp [hv, this]
+      · simp [hv, hl, hb v l]
+    · show (m.tbl.vars.insert var j)[var]? = some j
+      simp
+    · intro v l hvl
+      show (m.tbl.vars.insert var j)[v]? = some l
+      rw [TreeMap.getElem?_insert]
+      by_cases hv : var = v
+      · subst hv; rw [h1] at hvl; cases hvl
+      · simp [hv, hvl]
+    · intro i hi; subst hi; simp at h3; omega
+
+theorem loadVars_spec (hA : AddVarInv) (levels : Bool) (n : Nat) :
+    ∀ (vs : List (String × Nat)) (lm : List (Nat × Nat)) (m : Mgr) (lm' : List (Nat × Nat)) (m' : Mgr),
+      loadVars levels n vs lm m = (.ok lm', m') → Inv m → VarsBij m.tbl →
+      Inv m' ∧ VarsBij m'.tbl ∧ m'.ctx = m.ctx ∧ m'.tbl.succ = m.tbl.succ ∧
+      (∀ (v : String) (l : Nat), m.tbl.vars[v]? = some l → m'.tbl.vars[v]? = some l) ∧
+      (∀ i j, lm'.lookup i = some j →
+        lm.lookup i = some j ∨ ∃ var, (var, i) ∈ vs ∧ m'.tbl.vars[var]? = some j) ∧
+      (∀ var i, (var, i) ∈ vs → (lm'.lookup i).isSome) ∧
+      (∀ i, (lm.lookup i).isSome → (lm'.lookup i).isSome) ∧
+      (levels = true → ∀ i j, lm'.lookup i = some j → lm.lookup i = some j ∨ j = i) := by
+  intro vs
+  induction vs with
+  | nil =>
+    intro lm m lm' m' h hI hb
+    simp [loadVars] at h
+    obtain ⟨h1, h2⟩ := h
+    subst h1 h2
+    exact ⟨hI, hb, rfl, rfl, fun _ _ h => h, fun _ _ h => Or.inl h, by simp, fun _ h => h,
+      fun _ _ _ h => Or.inl h⟩
+  | cons x rest ih =>
+    intro lm m lm' m' h hI hb
+    obtain ⟨var, i⟩ := x
+    rw [loadVars] at h
+    dsimp only at h
+    by_cases hin : i < n
+    · simp only [hin, not_true_eq_false, if_false] at h
+      cases hav : addVar var (if levels = true then some (i : Int) else none) m with
+      | mk res m1 =>
+        rw [hav] at h
+        cases res with
+        | error e => simp at h
+        | ok j =>
+          dsimp only at h
+          have I1 := hA m var _ j m1 hI hav
+          obtain ⟨B1, V1, M1, C1, S1, L1⟩ := addVar_facts hav hb
+          obtain ⟨I2, B2, C2, S2, M2, R2, D2, K2, L2⟩ := ih ((i, j) :: lm) m1 lm' m' h I1 B1
+          refine ⟨I2, B2, C2.trans C1, S2.trans S1, fun v l hvl => M2 v l (M1 v l hvl), ?_, ?_, ?_, ?_⟩
+          · intro i' j' hl
+            rcases R2 i' j' hl with h' | ⟨v, hv, hv'⟩
+            · rw [List.lookup_cons] at h'
+              by_cases he : i' = i
+              · subst he
+                simp at h'
+                subst h'
+                exact Or.inr ⟨var, List.mem_cons_self, M2 var j V1⟩
+              · have : (i' == i) = false := by simpa using he
+                rw [this] at h'
+                exact Or.inl h'
+            · exact Or.inr ⟨v, List.mem_cons_of_mem _ hv, hv'⟩
+          · intro v i' hv
+            rcases List.mem_cons.mp hv with h' | h'
+            · cases h'
+              exact K2 i (by simp [List.lookup_cons])
+            · exact D2 v i' h'
+          · intro i' hi'
+            apply K2
+            rw [List.lookup_cons]
+            by_cases he : i' = i
+            · subst he; simp
+            · have : (i' == i) = false := by simpa using he
+              rw [this]; exact hi'
+          · intro hlv i' j' hl
+            rcases L2 hlv i' j' hl with h' | h'
+            · rw [List.lookup_cons] at h'
+              by_cases he : i' = i
+              · subst he
+                simp at h'
+                subst h'
+                exact Or.inr (L1 i' (by simp [hlv]))
+              · have : (i' == i) = false := by simpa using he
+                rw [this] at h'
+                exact Or.inl h'
+            · exact Or.inr h'
+    · simp [hin] at h
+
+theorem Forall2.imp {α β : Type} {R S : α → β → Prop} (h : ∀ a b, R a b → S a b) :
+    ∀ {l : List α} {l' : List β}, Forall2 R l l' → Forall2 S l l' := by
+  intro l l' hl
+  induction hl with
+  | nil => exact .nil
+  | cons a _ ih => exact .cons (h _ _ a) ih
+
+theorem RootsRel.imp {P Q : Int → Int → Prop} (h : ∀ u r, P u r → Q u r) {a b : Roots}
+    (hr : RootsRel P a b) : RootsRel Q a b := by
+  cases hr with
+  | list hl => exact .list (hl.imp h)
+  | dict hd => exact .dict (hd.imp fun x y hxy => ⟨hxy.1, h _ _ hxy.2⟩)
+
+/-! ### semantics by variable *name* -/
+
+/-- an assignment to names, seen by the levels of a manager -/
+def Tbl.asg (t : Tbl) (α : String → Bool) : Asg := fun l =>
+  match t.l2v[l]? with
+  | some v => α v
+  | none => false
+
+/-- the function of names a reference denotes -/
+def denBy (t : Tbl) (u : Int) (α : String → Bool) : Bool := den t u (t.asg α)
+
+/-- `{level: var}` of the file -/
+def PickleFile.nameAt (f : PickleFile) (lvl : Nat) : Option String :=
+  (f.vars.find? (fun p => p.2 == lvl)).map (·.1)
+
+/-- value of the node id `u` of the file under an assignment to variable names -/
+def evalN (f : PickleFile) : Nat → Int → (String → Bool) → Bool
+  | 0, _, _ => false
+  | k+1, u, α =>
+    if u.natAbs = 1 then decide (0 < u) else
+    match PEntry.find f.succ u.natAbs with
+    | none => false
+    | some e =>
+      match e.lo, e.hi, f.nameAt e.lvl with
+      | some v, some w, some x =>
+        (decide (u < 0)) ^^ (if α x then evalN f k w α else evalN f k v α)
+      | _, _, _ => false
+
+/-- semantics of a node id inside a pickle file, by variable name -/
+def evalPickle (f : PickleFile) (u : Int) (α : String → Bool) : Bool :=
+  evalN f (f.vars.length + 1) u α
+
+/-- well-formed content of a pickle file -/
+structure PickleWF (f : PickleFile) : Prop where
+  succ : SuccWF f.succ f.vars.length
+  names : ∀ var i, (var, i) ∈ f.vars → f.nameAt i = some var
+  lvls : ∀ k e, PEntry.find f.succ k = some e → k ≠ 1 → ∃ var, (var, e.lvl) ∈ f.vars
+
+/-- the level map sends each level of the file to the level of the same-named variable -/
+def NameOK (f : PickleFile) (lm : List (Nat × Nat)) (t : Tbl) : Prop :=
+  ∀ i j, lm.lookup i = some j → ∃ x, f.nameAt i = some x ∧ t.l2v[j]? = some x
+
+theorem evalL_eq_evalN (f : PickleFile) (lm : List (Nat × Nat)) (t : Tbl) (N : Nat)
+    (hl : LMOK f.succ lm N) (hn : NameOK f lm t) (α : String → Bool) :
+    ∀ k u, evalL f.succ lm k u (t.asg α) = evalN f k u α := by
+  intro k
+  induction k with
+  | zero => intro u; rfl
+  | succ k ih =>
+    intro u
+    rw [evalL, evalN]
+    by_cases h1 : u.natAbs = 1
+    · simp [h1]
+    · simp only [h1, if_false]
+      cases he : PEntry.find f.succ u.natAbs with
+      | none => rfl
+      | some e =>
+        obtain ⟨j, hj, _⟩ := hl.dom _ e he h1
+        obtain ⟨x, hx, hx'⟩ := hn _ _ hj
+        simp only [hj, hx]
+        cases e.lo <;> cases e.hi <;> try rfl
+        simp only [ih]
+        have : t.asg α j = α x := by simp [Tbl.asg, hx']
+        rw [this]
+
+/-- no level gaps: declared levels are below the number of variables (F7 excluded) -/
+def Contig (t : Tbl) : Prop := ∀ (v : String) (l : Nat), t.vars[v]? = some l → l < t.nvars
+
+/-- strictly increasing level map (what `levels=False` needs, F3) -/
+def MonoMap (lm : List (Nat × Nat)) : Prop :=
+  ∀ i i' j j', lm.lookup i = some j → lm.lookup i' = some j' → i < i' → j < j'
+
+/-- `BDD.load` on a well-formed file content: if the loader accepts the variables
+(`_load_pickle`'s first loop succeeds), they are declared without level gaps, and the level
+map is increasing (automatic for `levels=True`), then the load succeeds, the manager
+invariant is kept, old nodes are untouched, and the returned container has the shape of the
+file's `roots` with every member denoting — as a function of variable NAMES — what the
+file says. -/
+theorem pickle_load_of_specs (hF : FoaSpec) (hA : AddVarInv) (f : PickleFile) (levels : Bool)
+    (m : Mgr) (hI : Inv m) (hb : VarsBij m.tbl) (hc : m.ctx = false)
+    (hwf : PickleWF f) (hr : RootsOK f)
+    (lm : List (Nat × Nat)) (m1 : Mgr)
+    (hv : loadVars levels f.vars.length f.vars [] m = (.ok lm, m1))
+    (hg : Contig m1.tbl) (hm : levels = false → MonoMap lm) :
+    ∃ roots' m', loadPickle f levels m = (.ok roots', m') ∧ Inv m' ∧ VarsBij m'.tbl ∧
+      m'.ctx = false ∧ (∀ u n, m.tbl.node? u = some n → m'.tbl.node? u = some n) ∧
+      RootsRel (fun u r => m'.tbl.Mem r ∧ ∀ α, denBy m'.tbl r α = evalPickle f u α) f.roots roots' := by
+  obtain ⟨I1, B1, C1, S1, M1, R1, D1, _, L1⟩ := loadVars_spec hA levels f.vars.length f.vars [] m lm m1 hv hI hb
+  have hl : LMOK f.succ lm m1.nvars := by
+    constructor
+    · intro k e he h1
+      obtain ⟨var, hvar⟩ := hwf.lvls k e he h1
+      obtain ⟨j, hj⟩ := Option.isSome_iff_exists.mp (D1 var e.lvl hvar)
+      refine ⟨j, hj, ?_⟩
+      rcases R1 _ _ hj with h | ⟨v, _, hv'⟩
+      · simp at h
+      · exact hg v j hv'
+    · cases levels with
+      | false => exact hm rfl
+      | true =>
+        intro i i' j j' h1 h2 hlt
+        rcases L1 rfl i j h1 with h | h
+        · simp at h
+        rcases L1 rfl i' j' h2 with h' | h'
+        · simp at h'
+        omega
+  obtain ⟨roots', m', e1, I2, F2, X2, RR⟩ :=
+    loadPickle_core hF f levels lm m m1 hv I1 (C1.trans hc) hwf.succ hl hr
+  have hn : NameOK f lm m'.tbl := by
+    intro i j hij
+    rcases R1 _ _ hij with h | ⟨v, hv1, hv2⟩
+    · simp at h
+    · exact ⟨v, hwf.names v i hv1, by rw [F2.l2v]; exact (B1 v j).mp hv2⟩
+  have B2 : VarsBij m'.tbl := by
+    intro v l; rw [F2.vars, F2.l2v]; exact B1 v l
+  refine ⟨roots', m', e1, I2, B2, F2.ctx.trans (C1.trans hc), ?_, ?_⟩
+  · intro u n hn'
+    apply X2.nodes
+    unfold Tbl.node? at hn' ⊢
+    rw [S1]; exact hn'
+  · have conv : ∀ u r, (m'.tbl.Mem r ∧ ∀ a, den m'.tbl r a = evalL f.succ lm (f.vars.length + 1) u a) →
+        (m'.tbl.Mem r ∧ ∀ α, denBy m'.tbl r α = evalPickle f u α) := by
+      intro u r ⟨h1, h2⟩
+      refine ⟨h1, fun α => ?_⟩
+      unfold denBy evalPickle
+      rw [h2, evalL_eq_evalN f lm m'.tbl _ hl hn]
+    exact RR.imp conv
+
+
 end DD
